@@ -70,9 +70,13 @@ def cellsAt (rows : Rows) (i : Nat) : Except LErr Nat :=
 
 def lperr {α : Type} (e : PErr) : Except LErr α := .error (.parse e)
 
+/-- strict PHYLIP: the label is the first ten characters of the line (`line[:10]`, `line[10:]`); shown equal to the
+regenerated `C20Consts.phylipLabelEnd` / `phylipSeqStart` by `phylip_width_bridge` -/
+def phyLabelWidth : Nat := 10
+
 /-- `_parse_taxon_from_line`: returns the row index, the updated rows and the rest of the line -/
 def phyTaxon (strict : Bool) (ntax nchar : Nat) (rows : Rows) (line : List Char) : Except LErr (Nat × Rows × List Char) :=
-  let (lab, rest) := if strict then (strip (line.take 10), line.drop 10) else
+  let (lab, rest) := if strict then (strip (line.take phyLabelWidth), line.drop phyLabelWidth) else
     let p := splitLabel line
     (strip p.1, p.2)
   if lab.isEmpty then lperr .data
